@@ -264,6 +264,9 @@ func runC11(c *eng.Ctx) {
 		clampIdiom(c, pr, 2)
 	})
 
+	// ---- 5b. the write buffer's end marker covers every written slot -------------------------------------------------------------------
+	c.Rule("SYMMETRY", "tsdb/memdb.write{end marker only grows}", func() { endMarkerOnlyGrows(c) })
+
 	// ---- shared with C03 ---------------------------------------------------------------------------------------------------------------
 	c.Rule("ANCHOR", mfT+".FlushSeries{startAt}", func() { flusherAnchors(c) })
 	c.Rule("LAYOUT", "tsdb/tblstore/metricsdata{block footer}", func() { blockFooter(c) })
@@ -328,4 +331,77 @@ func notFoundDoesNotHideTheRest(c *eng.Ctx, f *ssa.Function, part eng.Site, labe
 			"a failing return is reachable from the part's error edge without taking the `not a not-found error` outcome of errors.Is(err, constants.ErrNotFound)")
 	}
 	_ = p
+}
+
+// endMarkerOnlyGrows (F13): the in-memory field buffer describes its written slots as [start, start+end]; every reader
+// (query, flush, compaction of the window) bounds its scan by that range.  A write inside the window may therefore replace
+// the end marker only by a LARGER offset: an unconditional `buf[endOffset] = delta` lets a later write of an earlier slot pull
+// the marker back and hide the slots written beyond it.  Stores of the constant 0 (first point / reset) are the window start.
+func endMarkerOnlyGrows(c *eng.Ctx) {
+	p := c.P
+	eo, ok := p.ConstInt64("tsdb/memdb", "endOffset")
+	if !ok {
+		c.Undecided("constant tsdb/memdb.endOffset not found")
+	}
+	isEndCell := func(v ssa.Value) bool {
+		ia, ok := v.(*ssa.IndexAddr)
+		if !ok {
+			return false
+		}
+		k, isC := eng.ConstInt(ia.Index)
+		return isC && k == eo
+	}
+	readsEnd := func(v ssa.Value) bool {
+		return eng.DependsOn(v, func(x ssa.Value) bool {
+			if u, ok := x.(*ssa.UnOp); ok && u.Op == token.MUL && isEndCell(u.X) {
+				return true
+			}
+			if cl, ok := x.(*ssa.Call); ok && cl.Common().StaticCallee() != nil && p.FuncKey(cl.Common().StaticCallee()) == "tsdb/memdb.getEnd" {
+				return true
+			}
+			return false
+		})
+	}
+	n := 0
+	for _, fk := range []string{"tsdb/memdb.write", "tsdb/memdb.writeFirstPoint"} {
+		f := c.Fn(fk)
+		for _, s := range p.SitesDirect(f, func(p *eng.Prog, in ssa.Instruction) bool {
+			st, ok := in.(*ssa.Store)
+			return ok && isEndCell(st.Addr)
+		}) {
+			st := s.Instr.(*ssa.Store)
+			if k, isC := eng.ConstInt(st.Val); isC && k == 0 {
+				c.Check(true, fmt.Sprintf("%s:window-start[%d]", fk, n), st, f, "the end marker is reset to 0 together with a new window start", "")
+				n++
+				continue
+			}
+			n++
+			conds, _ := eng.GuardingConds(f, st)
+			grows := false
+			for _, cd := range conds {
+				bo, ok := eng.Unwrap(cd).(*ssa.BinOp)
+				if !ok {
+					continue
+				}
+				switch bo.Op {
+				case token.LSS, token.GTR, token.LEQ, token.GEQ:
+				default:
+					continue
+				}
+				// one side is the marker's current content, the other the offset being stored
+				valSide := func(v ssa.Value) bool {
+					return eng.DependsOn(v, func(x ssa.Value) bool { return x == st.Val }) || eng.DependsOn(st.Val, func(x ssa.Value) bool { return x == v }) && !readsEnd(v)
+				}
+				if readsEnd(bo.X) && valSide(bo.Y) || readsEnd(bo.Y) && valSide(bo.X) {
+					grows = true
+				}
+			}
+			c.Check(grows, fmt.Sprintf("%s:marker-replaced-only-by-a-larger-offset[%d]", fk, n), st, f,
+				"inside a window the end marker is replaced only under a comparison with its current content (it can only grow), so a later write of an earlier slot does not hide slots written beyond it",
+				"buf[endOffset] = "+p.Desc(st.Val)+" is not guarded by a comparison with the current end marker")
+		}
+	}
+	if n < 2 {
+		c.Undecided("expected the end marker to be written in write and writeFirstPoint, found %d stores", n)
+	}
 }
